@@ -1,0 +1,60 @@
+//go:build verif
+
+/*
+ Licensed to the Apache Software Foundation (ASF) under one
+ or more contributor license agreements.  See the NOTICE file
+ distributed with this work for additional information
+ regarding copyright ownership.  The ASF licenses this file
+ to you under the Apache License, Version 2.0 (the
+ "License"); you may not use this file except in compliance
+ with the License.  You may obtain a copy of the License at
+
+     http://www.apache.org/licenses/LICENSE-2.0
+
+ Unless required by applicable law or agreed to in writing, software
+ distributed under the License is distributed on an "AS IS" BASIS,
+ WITHOUT WARRANTIES OR CONDITIONS OF ANY KIND, either express or implied.
+ See the License for the specific language governing permissions and
+ limitations under the License.
+*/
+
+package objects
+
+import (
+	"sort"
+
+	"github.com/apache/yunikorn-core/pkg/common/resources"
+)
+
+// Verification hooks (build tag verif): exported access to unexported queue bookkeeping.
+
+func (sq *Queue) VerifCanRunApp(appID string) bool { return sq.canRunApp(appID) }
+
+func (sq *Queue) VerifIncRunningApps(appID string) { sq.incRunningApps(appID) }
+
+func (sq *Queue) VerifDecRunningApps() { sq.decRunningApps() }
+
+func (sq *Queue) VerifSetAllocatingAccepted(appID string) { sq.setAllocatingAccepted(appID) }
+
+func (sq *Queue) VerifRunningApps() uint64 {
+	sq.RLock()
+	defer sq.RUnlock()
+	return sq.runningApps
+}
+
+func (sq *Queue) VerifAllocatingAccepted() []string {
+	sq.RLock()
+	defer sq.RUnlock()
+	out := make([]string, 0, len(sq.allocatingAcceptedApps))
+	for k := range sq.allocatingAcceptedApps {
+		out = append(out, k)
+	}
+	sort.Strings(out)
+	return out
+}
+
+func (sq *Queue) VerifGetHeadRoom() *resources.Resource { return sq.getHeadRoom() }
+
+func (sq *Queue) VerifGetMaxHeadRoom() *resources.Resource { return sq.getMaxHeadRoom() }
+
+func (sq *Queue) VerifMaxResourceRaw() *resources.Resource { return sq.cloneMaxResource() }
